@@ -3,6 +3,7 @@ package main
 import (
 	"fmt"
 	"math"
+	"math/rand"
 	"reflect"
 	"strconv"
 	"strings"
@@ -18,6 +19,8 @@ func c04(c *Sexp) *Sexp {
 	switch c.Str("kind") {
 	case "index":
 		return c04Index(c)
+	case "edit":
+		return c04Edit(c)
 	case "samebip":
 		return c04SameBip(c)
 	case "edgeindex":
@@ -77,6 +80,75 @@ func c04Index(c *Sexp) *Sexp {
 	if err := t.ReinitIndexes(); err != nil {
 		return L(KV("err", A(errStr(err))))
 	}
+	return L(c04Tables(t)...)
+}
+
+// edit: an editing operation, then the tables as the operation left them (reinit F) or after an
+// explicit ReinitIndexes (reinit T), together with the dump of the resulting tree.
+func c04Edit(c *Sexp) *Sexp {
+	t, err := c04Build(c.Get("tree"))
+	if err != nil {
+		return L(KV("panic", A(err.Error())))
+	}
+	if err := t.ReinitIndexes(); err != nil {
+		return L(KV("operr", A("reinit: "+errStr(err))), KV("tree", L(A("N"), A(""), L(), L())), KV("audit", L()))
+	}
+	rand.Seed(int64(c.Int("seed")))
+	var operr error
+	switch c.Str("op") {
+	case "reroot":
+		nodes := t.Nodes()
+		i := c.Int("i")
+		if i >= len(nodes) {
+			i = 0
+		}
+		operr = t.Reroot(nodes[i])
+	case "unroot":
+		t.UnRoot()
+	case "removetips":
+		operr = t.RemoveTips(c.Bool("revert"), c.StrList("names")...)
+	case "collapselen":
+		t.CollapseShortBranches(c.Float("x"), c.Bool("root"), c.Bool("tips"))
+	case "collapsesup":
+		t.CollapseLowSupport(c.Float("x"), c.Bool("root"))
+	case "collapsedepth":
+		operr = t.CollapseTopoDepth(c.Int("a"), c.Int("b"), c.Bool("root"), c.Bool("tips"))
+	case "resolve":
+		t.Resolve()
+	case "shuffle":
+		t.ShuffleTips()
+	case "removesingle":
+		t.RemoveSingleNodes()
+	case "midpoint":
+		operr = t.RerootMidPoint()
+	case "outgroup":
+		operr = t.RerootOutGroup(c.Bool("remove"), false, c.StrList("names")...)
+	case "rotate":
+		t.RotateInternalNodes()
+	case "sort":
+		t.SortNeighborsByTips()
+	default:
+		return L(KV("panic", A("unknown op")))
+	}
+	if operr == nil && c.Bool("reinit") {
+		if err := t.ReinitIndexes(); err != nil {
+			operr = fmt.Errorf("reinit: %v", err)
+		}
+	}
+	d, audit := ObserveTree(t)
+	obs := []*Sexp{KV("operr", A(errStr(operr))), KV("tree", d), KV("audit", audit)}
+	if operr == nil && len(audit.List) == 0 {
+		obs = append(obs, c04Tables(t)...)
+	}
+	return L(obs...)
+}
+
+func c04Tables(t *tree.Tree) []*Sexp {
+	for _, e := range t.Edges() {
+		if e.Bitset() == nil {
+			return []*Sexp{KV("err", A("a branch has no bitset"))}
+		}
+	}
 	tips := L()
 	for _, n := range t.Tips() {
 		tips.List = append(tips.List, L(A(n.Name()), I(n.TipIndex())))
@@ -91,7 +163,7 @@ func c04Index(c *Sexp) *Sexp {
 		edges.List = append(edges.List, L(A(c04Bits(e)), I(e.NumTipsRight()), I(e.NumTipsLeft()), I(d),
 			U64(e.HashCode()), U64(hl), U64(hr), B(e.Right().Tip())))
 	}
-	return L(KV("err", A("")), KV("tips", tips), KV("edges", edges))
+	return []*Sexp{KV("err", A("")), KV("tips", tips), KV("edges", edges)}
 }
 
 // samebip: SameBipartition and HashCode equality of all pairs of branches, FindEdge.
